@@ -40,6 +40,7 @@ package trend
 //@ guarantees[C06] "input-close" len(arg(Apo_Compute, 0, 0)) == len(snapshots) && (forall k :: 0 <= k && k < len(snapshots) ==> arg(Apo_Compute, 0, 0)[k] == snapshots[k].Close)
 //@ guarantees[C06] "crossing-above-zero-buys" forall k :: 0 <= k && k < len(res(Apo_Compute, 0)) - 1 ==> (res(Apo_Compute, 0)[k+1] > 0 && res(Apo_Compute, 0)[k] < 0 ==> result[k + a.Apo.SlowPeriod] == 1)
 //@ guarantees[C06] "crossing-below-zero-sells" forall k :: 0 <= k && k < len(res(Apo_Compute, 0)) - 1 ==> (res(Apo_Compute, 0)[k+1] < 0 && res(Apo_Compute, 0)[k] > 0 ==> result[k + a.Apo.SlowPeriod] == 0 - 1)
+//@ guarantees[C06] "no-crossing-holds" forall k :: 0 <= k && k < len(res(Apo_Compute, 0)) - 1 ==> ((res(Apo_Compute, 0)[k+1] > 0 && res(Apo_Compute, 0)[k] > 0) || (res(Apo_Compute, 0)[k+1] < 0 && res(Apo_Compute, 0)[k] < 0) ==> result[k + a.Apo.SlowPeriod] == 0)
 //@ ensures[C05] "len" len(snapshots) >= (a.Apo.SlowPeriod) ==> len(result) == len(snapshots)
 //@ ensures[C05] "len-short" len(result) >= len(snapshots)
 //@ ensures[C05] "warmup-hold" forall kk :: 0 <= kk && kk < min((a.Apo.SlowPeriod), len(result)) ==> result[kk] == 0
@@ -119,6 +120,7 @@ package trend
 //@ guarantees[C06] "input-close" len(arg(Cci_Compute, 0, 2)) == len(c) && (forall k :: 0 <= k && k < len(c) ==> arg(Cci_Compute, 0, 2)[k] == c[k].Close)
 //@ guarantees[C06] "above-100-buys" forall k :: 0 <= k && k < len(res(Cci_Compute, 0)) ==> (res(Cci_Compute, 0)[k] > 100 ==> result[k + t.Cci.IdlePeriod()] == 1)
 //@ guarantees[C06] "below-minus-100-sells" forall k :: 0 <= k && k < len(res(Cci_Compute, 0)) ==> (res(Cci_Compute, 0)[k] < 0 - 100 ==> result[k + t.Cci.IdlePeriod()] == 0 - 1)
+//@ guarantees[C06] "between-the-levels-holds" forall k :: 0 <= k && k < len(res(Cci_Compute, 0)) ==> (res(Cci_Compute, 0)[k] < 100 && res(Cci_Compute, 0)[k] > 0 - 100 ==> result[k + t.Cci.IdlePeriod()] == 0)
 //@ ensures[C05] "len" len(c) >= (t.Cci.IdlePeriod()) ==> len(result) == len(c)
 //@ ensures[C05] "len-short" len(result) >= len(c)
 //@ ensures[C05] "warmup-hold" forall kk :: 0 <= kk && kk < min((t.Cci.IdlePeriod()), len(result)) ==> result[kk] == 0
@@ -168,6 +170,7 @@ package trend
 //@ guarantees[C06] "input-close" len(arg(Envelope_Compute, 0, 0)) == len(snapshots) && (forall k :: 0 <= k && k < len(snapshots) ==> arg(Envelope_Compute, 0, 0)[k] == snapshots[k].Close)
 //@ guarantees[C06] "close-below-lower-buys" forall k :: 0 <= k && k < len(res(Envelope_Compute, 0, 0)) ==> (snapshots[k + e.Envelope.IdlePeriod()].Close < res(Envelope_Compute, 0, 2)[k] ==> result[k + e.Envelope.IdlePeriod()] == 1)
 //@ guarantees[C06] "close-above-upper-sells" forall k :: 0 <= k && k < len(res(Envelope_Compute, 0, 0)) ==> (snapshots[k + e.Envelope.IdlePeriod()].Close > res(Envelope_Compute, 0, 0)[k] && snapshots[k + e.Envelope.IdlePeriod()].Close >= res(Envelope_Compute, 0, 2)[k] ==> result[k + e.Envelope.IdlePeriod()] == 0 - 1)
+//@ guarantees[C06] "inside-the-envelope-holds" forall k :: 0 <= k && k < len(res(Envelope_Compute, 0, 0)) ==> (snapshots[k + e.Envelope.IdlePeriod()].Close > res(Envelope_Compute, 0, 2)[k] && snapshots[k + e.Envelope.IdlePeriod()].Close < res(Envelope_Compute, 0, 0)[k] ==> result[k + e.Envelope.IdlePeriod()] == 0)
 //@ ensures[C05] "len" len(snapshots) >= (e.Envelope.IdlePeriod()) ==> len(result) == len(snapshots)
 //@ ensures[C05] "len-short" len(result) >= len(snapshots)
 //@ ensures[C05] "warmup-hold" forall kk :: 0 <= kk && kk < min((e.Envelope.IdlePeriod()), len(result)) ==> result[kk] == 0
@@ -270,6 +273,7 @@ package trend
 //@ guarantees[C06] "input-close" len(arg(Kdj_Compute, 0, 2)) == len(c) && (forall k :: 0 <= k && k < len(c) ==> arg(Kdj_Compute, 0, 2)[k] == c[k].Close)
 //@ guarantees[C06] "j-above-k-and-d-buys" forall k :: 0 <= k && k < len(res(Kdj_Compute, 0, 0)) ==> (res(Kdj_Compute, 0, 2)[k] > res(Kdj_Compute, 0, 0)[k] && res(Kdj_Compute, 0, 2)[k] > res(Kdj_Compute, 0, 1)[k] ==> result[k + kdj.Kdj.IdlePeriod()] == 1)
 //@ guarantees[C06] "j-below-k-and-d-sells" forall k :: 0 <= k && k < len(res(Kdj_Compute, 0, 0)) ==> (res(Kdj_Compute, 0, 2)[k] < res(Kdj_Compute, 0, 0)[k] && res(Kdj_Compute, 0, 2)[k] < res(Kdj_Compute, 0, 1)[k] ==> result[k + kdj.Kdj.IdlePeriod()] == 0 - 1)
+//@ guarantees[C06] "j-between-k-and-d-holds" forall k :: 0 <= k && k < len(res(Kdj_Compute, 0, 0)) ==> ((res(Kdj_Compute, 0, 2)[k] < res(Kdj_Compute, 0, 0)[k] && res(Kdj_Compute, 0, 2)[k] > res(Kdj_Compute, 0, 1)[k]) || (res(Kdj_Compute, 0, 2)[k] > res(Kdj_Compute, 0, 0)[k] && res(Kdj_Compute, 0, 2)[k] < res(Kdj_Compute, 0, 1)[k]) ==> result[k + kdj.Kdj.IdlePeriod()] == 0)
 //@ ensures[C05] "len" len(c) >= (kdj.Kdj.IdlePeriod()) ==> len(result) == len(c)
 //@ ensures[C05] "len-short" len(result) >= len(c)
 //@ ensures[C05] "warmup-hold" forall kk :: 0 <= kk && kk < min((kdj.Kdj.IdlePeriod()), len(result)) ==> result[kk] == 0
@@ -307,6 +311,9 @@ package trend
 //@ guarantees[C06] "input-close" len(arg(Macd_Compute, 0, 0)) == len(snapshots) && (forall k :: 0 <= k && k < len(snapshots) ==> arg(Macd_Compute, 0, 0)[k] == snapshots[k].Close)
 //@ guarantees[C06] "buy-only-when-macd-above-signal" forall k :: 0 <= k && k < len(res(Macd_Compute, 0, 0)) ==> (result[k + m.Macd.IdlePeriod()] == 1 ==> res(Macd_Compute, 0, 0)[k] > res(Macd_Compute, 0, 1)[k])
 //@ guarantees[C06] "sell-only-when-macd-below-signal" forall k :: 0 <= k && k < len(res(Macd_Compute, 0, 0)) ==> (result[k + m.Macd.IdlePeriod()] == 0 - 1 ==> res(Macd_Compute, 0, 0)[k] < res(Macd_Compute, 0, 1)[k])
+//@ guarantees[C06] "above-signal-below-zero-buys" forall k :: 0 <= k && k < len(res(Macd_Compute, 0, 0)) ==> (res(Macd_Compute, 0, 0)[k] > res(Macd_Compute, 0, 1)[k] && res(Macd_Compute, 0, 0)[k] < 0 ==> result[k + m.Macd.IdlePeriod()] == 1)
+//@ guarantees[C06] "below-signal-above-zero-sells" forall k :: 0 <= k && k < len(res(Macd_Compute, 0, 0)) ==> (res(Macd_Compute, 0, 0)[k] < res(Macd_Compute, 0, 1)[k] && res(Macd_Compute, 0, 0)[k] > 0 ==> result[k + m.Macd.IdlePeriod()] == 0 - 1)
+//@ guarantees[C06] "otherwise-holds" forall k :: 0 <= k && k < len(res(Macd_Compute, 0, 0)) ==> ((res(Macd_Compute, 0, 0)[k] > res(Macd_Compute, 0, 1)[k] && res(Macd_Compute, 0, 0)[k] > 0) || (res(Macd_Compute, 0, 0)[k] < res(Macd_Compute, 0, 1)[k] && res(Macd_Compute, 0, 0)[k] < 0) ==> result[k + m.Macd.IdlePeriod()] == 0)
 //@ ensures[C05] "len" len(snapshots) >= (m.Macd.IdlePeriod()) ==> len(result) == len(snapshots)
 //@ ensures[C05] "len-short" len(result) >= len(snapshots)
 //@ ensures[C05] "warmup-hold" forall kk :: 0 <= kk && kk < min((m.Macd.IdlePeriod()), len(result)) ==> result[kk] == 0
@@ -335,6 +342,7 @@ package trend
 //@ guarantees[C06] "input-close" len(arg(Qstick_Compute, 0, 1)) == len(c) && (forall k :: 0 <= k && k < len(c) ==> arg(Qstick_Compute, 0, 1)[k] == c[k].Close)
 //@ guarantees[C06] "crossing-above-zero-buys" forall k :: 0 <= k && k < len(res(Qstick_Compute, 0)) - 1 ==> (res(Qstick_Compute, 0)[k+1] > 0 && res(Qstick_Compute, 0)[k] < 0 ==> result[k + q.Qstick.Sma.Period] == 1)
 //@ guarantees[C06] "crossing-below-zero-sells" forall k :: 0 <= k && k < len(res(Qstick_Compute, 0)) - 1 ==> (res(Qstick_Compute, 0)[k+1] < 0 && res(Qstick_Compute, 0)[k] > 0 ==> result[k + q.Qstick.Sma.Period] == 0 - 1)
+//@ guarantees[C06] "no-crossing-holds" forall k :: 0 <= k && k < len(res(Qstick_Compute, 0)) - 1 ==> ((res(Qstick_Compute, 0)[k+1] > 0 && res(Qstick_Compute, 0)[k] > 0) || (res(Qstick_Compute, 0)[k+1] < 0 && res(Qstick_Compute, 0)[k] < 0) ==> result[k + q.Qstick.Sma.Period] == 0)
 //@ ensures[C05] "len" len(c) >= (q.Qstick.Sma.Period) ==> len(result) == len(c)
 //@ ensures[C05] "len-short" len(result) >= len(c)
 //@ ensures[C05] "warmup-hold" forall kk :: 0 <= kk && kk < min((q.Qstick.Sma.Period), len(result)) ==> result[kk] == 0
@@ -413,6 +421,7 @@ package trend
 //@ guarantees[C06] "input-close" len(arg(Ema_Compute, 2, 0)) == len(c) && (forall k :: 0 <= k && k < len(c) ==> arg(Ema_Compute, 2, 0)[k] == c[k].Close)
 //@ guarantees[C06] "fast-above-both-buys" forall k :: 0 <= k && k < len(res(Ema_Compute, 2)) ==> (res(Ema_Compute, 0)[k + t.SlowEma.IdlePeriod() - t.FastEma.IdlePeriod()] > res(Ema_Compute, 1)[k + t.SlowEma.IdlePeriod() - t.MediumEma.IdlePeriod()] && res(Ema_Compute, 0)[k + t.SlowEma.IdlePeriod() - t.FastEma.IdlePeriod()] > res(Ema_Compute, 2)[k] ==> result[k + t.SlowEma.IdlePeriod()] == 1)
 //@ guarantees[C06] "fast-below-both-sells" forall k :: 0 <= k && k < len(res(Ema_Compute, 2)) ==> (res(Ema_Compute, 0)[k + t.SlowEma.IdlePeriod() - t.FastEma.IdlePeriod()] < res(Ema_Compute, 1)[k + t.SlowEma.IdlePeriod() - t.MediumEma.IdlePeriod()] && res(Ema_Compute, 0)[k + t.SlowEma.IdlePeriod() - t.FastEma.IdlePeriod()] < res(Ema_Compute, 2)[k] ==> result[k + t.SlowEma.IdlePeriod()] == 0 - 1)
+//@ guarantees[C06] "fast-between-the-others-holds" forall k :: 0 <= k && k < len(res(Ema_Compute, 2)) ==> ((res(Ema_Compute, 0)[k + t.SlowEma.IdlePeriod() - t.FastEma.IdlePeriod()] > res(Ema_Compute, 1)[k + t.SlowEma.IdlePeriod() - t.MediumEma.IdlePeriod()] && res(Ema_Compute, 0)[k + t.SlowEma.IdlePeriod() - t.FastEma.IdlePeriod()] < res(Ema_Compute, 2)[k]) || (res(Ema_Compute, 0)[k + t.SlowEma.IdlePeriod() - t.FastEma.IdlePeriod()] < res(Ema_Compute, 1)[k + t.SlowEma.IdlePeriod() - t.MediumEma.IdlePeriod()] && res(Ema_Compute, 0)[k + t.SlowEma.IdlePeriod() - t.FastEma.IdlePeriod()] > res(Ema_Compute, 2)[k]) ==> result[k + t.SlowEma.IdlePeriod()] == 0)
 //@ ensures[C05] "len" len(c) >= (t.SlowEma.IdlePeriod()) ==> len(result) == len(c)
 //@ ensures[C05] "len-short" len(result) >= len(c)
 //@ ensures[C05] "warmup-hold" forall kk :: 0 <= kk && kk < min((t.SlowEma.IdlePeriod()), len(result)) ==> result[kk] == 0
@@ -464,6 +473,7 @@ package trend
 //@ guarantees[C06] "input-close" len(arg(Tsi_Compute, 0, 0)) == len(snapshots) && (forall k :: 0 <= k && k < len(snapshots) ==> arg(Tsi_Compute, 0, 0)[k] == snapshots[k].Close)
 //@ guarantees[C06] "tsi-positive-and-above-signal-buys" forall k :: 0 <= k && k < len(res(Ma_Compute, 0)) ==> (res(Tsi_Compute, 0)[k + t.Signal.IdlePeriod()] > 0 && res(Tsi_Compute, 0)[k + t.Signal.IdlePeriod()] > res(Ma_Compute, 0)[k] ==> result[k + t.IdlePeriod()] == 1)
 //@ guarantees[C06] "tsi-negative-and-below-signal-sells" forall k :: 0 <= k && k < len(res(Ma_Compute, 0)) ==> (res(Tsi_Compute, 0)[k + t.Signal.IdlePeriod()] < 0 && res(Tsi_Compute, 0)[k + t.Signal.IdlePeriod()] < res(Ma_Compute, 0)[k] ==> result[k + t.IdlePeriod()] == 0 - 1)
+//@ guarantees[C06] "otherwise-holds" forall k :: 0 <= k && k < len(res(Ma_Compute, 0)) ==> ((res(Tsi_Compute, 0)[k + t.Signal.IdlePeriod()] > 0 && res(Tsi_Compute, 0)[k + t.Signal.IdlePeriod()] < res(Ma_Compute, 0)[k]) || (res(Tsi_Compute, 0)[k + t.Signal.IdlePeriod()] < 0 && res(Tsi_Compute, 0)[k + t.Signal.IdlePeriod()] > res(Ma_Compute, 0)[k]) ==> result[k + t.IdlePeriod()] == 0)
 //@ ensures[C05] "len" len(snapshots) >= (t.IdlePeriod()) ==> len(result) == len(snapshots)
 //@ ensures[C05] "len-short" len(result) >= len(snapshots)
 //@ ensures[C05] "warmup-hold" forall kk :: 0 <= kk && kk < min((t.IdlePeriod()), len(result)) ==> result[kk] == 0
